@@ -51,7 +51,7 @@ def build(spec):
     dt = spec.get('dtype')
     if dt:      # same numbers stored as integers / single precision
         ddt, edt = {'int16': ('int16', 'int16'), 'uint8err': ('int16', 'uint8'), 'int32': ('int32', 'int32'),
-                    'float32': ('float32', 'float32')}[dt]
+                    'float32': ('float32', 'float32'), 'float16': ('float16', 'float16')}[dt]
         data = data.astype(ddt)
         err = None if err is None else err.astype(edt)
     apers = []
@@ -212,6 +212,13 @@ def gen_spec(rng, lattice):
     if dtype:     # integer-valued images whose squares overflow the narrow integer types
         d = [[float(rng.randint(-300, 300)) for _ in range(nx)] for _ in range(ny)]
         e = [[float(rng.randint(0, 250)) for _ in range(nx)] for _ in range(ny)]
+    if not lattice:   # generic values stored in single / half precision (sums must still be float64 sums)
+        dtype = rng.choice([None] * 4 + ['float32', 'float32', 'float16'])
+        if dtype == 'float16':
+            top = max([abs(v) for row in d + e for v in row if math.isfinite(v)] + [1.0])
+            if top > 500.0:
+                d = [[v * 500.0 / top if math.isfinite(v) else v for v in row] for row in d]
+                e = [[v * 500.0 / top if math.isfinite(v) else v for v in row] for row in e]
     if lattice:
         method = rng.choice(['center', 'subpixel', 'subpixel', 'exactrect'])
         subpixels = rng.choice([1, 2, 4, 8, 16, 32]) if method == 'subpixel' else 5
@@ -247,7 +254,7 @@ def gen_spec(rng, lattice):
             'fill': rng.choice([0.0, 0.0, 2.5, -1.0, math.nan])}
     if dtype:
         spec['dtype'] = dtype
-        if dtype != 'float32' and spec['fill'] == 2.5:
+        if dtype not in ('float32', 'float16') and spec['fill'] == 2.5:
             spec['fill'] = -1.0          # an integer cutout cannot hold 2.5
     if spec['form'] == 'nddata':
         spec['nd_unc'] = rng.choice(['std', 'std', 'var', 'none'])
@@ -589,7 +596,7 @@ def oracles(spec, rng=None, extra=True):
                 viol.append(('blind:outside-set', 'result depends on values stored in masked / zero-weight / out-of-box pixels',
                              {'aperture': ai}))
         # ---- linear in data
-        fin = np.where(np.isfinite(data), data, 0.0)
+        fin = np.where(np.isfinite(data), data, 0.0).astype(float)   # float64 copy: a*d1 + b*d2 is formed in double
         if lattice:
             d_b = np.array([[rng.randint(-40, 40) / KD for _ in range(nx)] for _ in range(ny)])
             ca, cb = rng.choice([-2.0, 0.5, 3.0]), rng.choice([-1.0, 0.25, 2.0])
@@ -739,7 +746,23 @@ def gen_history(rng):
     return {'cls': cls, 'params': gen_params(rng, cls, False), 'data': d, 'err': e,
             'mask': gen_mask(rng, ny, nx), 'method': rng.choice(['exact', 'center', 'subpixel']), 'subpixels': 3,
             'form': form, 'pos0': [pos() for _ in range(npos)], 'pos1': [pos() for _ in range(npos)],
-            'pos2': [pos() for _ in range(npos)], 'op': rng.choice(['iadd', 'assign'])}
+            'pos2': [pos() for _ in range(npos)], 'op': rng.choice(['iadd', 'assign']),
+            'pchange': [[rng.random(), rng.choice([0.5, 0.7, 1.6, 2.5, 2.5])] for _ in range(rng.randint(1, 3))]}
+
+
+def param_assignment(aper, pick, factor):
+    """(name, new value) of a valid assignment to a shape parameter of `aper`: inner sizes only shrink and
+    outer sizes only grow (the constructors' ordering constraints), other sizes go either way, theta turns"""
+    names = [k for k in aper._params if k != 'positions']
+    name = names[int(pick * len(names)) % len(names)]
+    cur = getattr(aper, name)
+    if name == 'theta':
+        return name, float(getattr(cur, 'value', cur)) + factor
+    if name.endswith('_in'):
+        factor = min(factor, 1.0 / factor)
+    elif name.endswith('_out'):
+        factor = max(factor, 1.0 / factor)
+    return name, float(cur) * factor
 
 
 def history_oracle(h):
@@ -780,7 +803,8 @@ def history_oracle(h):
             viol.append((f'history:{stage}:centers', 'xcenter/ycenter differ from aper.positions', {}))
         if not (same(colvals(t, 'aperture_sum'), s) and same(colvals(t, 'aperture_sum_err'), e)):
             viol.append((f'history:{stage}:table-ne-do_photometry', 'table columns differ from do_photometry', {}))
-        fresh = cls(np.array(aper.positions, float), **h['params'])
+        cur = {k: getattr(aper, k) for k in aper._params if k != 'positions'}
+        fresh = cls(np.array(aper.positions, float), **cur)
         _, sf, ef, af = results(fresh)
         if not (same(sf, s) and same(ef, e) and same(af, a)):
             viol.append((f'history:{stage}:stale', 'sum/err/area_overlap of a re-used aperture object differ from a fresh '
@@ -813,6 +837,14 @@ def history_oracle(h):
         consistent(aper, 'after-positions-assignment')
         if not same(np.atleast_2d(aper.positions), p2):
             viol.append(('history:assignment-ignored', 'aper.positions = new did not take effect', {}))
+        # assigning shape parameters of the same (already used) object
+        for i, (pick, factor) in enumerate(h.get('pchange', [])):
+            name, value = param_assignment(aper, pick, factor)
+            setattr(aper, name, value)
+            got = getattr(aper, name)
+            if float(getattr(got, 'value', got)) != value:
+                viol.append(('history:parameter-assignment-ignored', f'aper.{name} = new did not take effect', {}))
+            consistent(aper, f'after-parameter-assignment:{name}')
     return viol
 
 
@@ -1081,8 +1113,8 @@ def run(ctx):
         'lattice cases (dyadic data/error/positions; center, subpixel 1..32, rectangle exact) through K + V; '
         'arbitrary-double cases (exact / any subpixels) through V with the rigorous bound; six pixel classes, '
         'scalar / 1-4 positions (inside, pixel centre/corner, straddling an edge or corner, box touching the frame, '
-        'far outside), 1-3 apertures, masks (none / random / all), NaN/inf pixels, bare array / NDData / Quantity, float64 / float32 / int16 / int32 / uint8 storage; '
-        'sky apertures through a TAN WCS; hole images under exact elliptical annuli; re-used aperture objects after the caller changed its position container in place / after aper.positions = new; sequences of get_values/multiply/cutout/to_image/get_overlap_slices with varying data shapes, masks and fills on one ApertureMask kept from to_mask(); '
+        'far outside), 1-3 apertures, masks (none / random / all), NaN/inf pixels, bare array / NDData / Quantity, float64 / float32 / float16 / int16 / int32 / uint8 storage; '
+        'sky apertures through a TAN WCS; hole images under exact elliptical annuli; re-used aperture objects after the caller changed its position container in place / after aper.positions = new / after assigning r, a, w, theta ...; sequences of get_values/multiply/cutout/to_image/get_overlap_slices with varying data shapes, masks and fills on one ApertureMask kept from to_mask(); '
         'non-trivial = at least one position whose pixel set is non-empty')
     ctx.assumptions += [
         'weights W and the bounding box are taken from the implementation (aperture.to_mask); their geometric '
